@@ -1340,6 +1340,13 @@ bool dispatch_api(State& st, const std::string& op, const json& a, json& ret)
         ret = id;
         return true;
     }
+    if (op == "remove_file")
+    {
+        // the user deletes one file of a library (m.db, to "reset" it) and leaves the rest
+        std::error_code ec;
+        ret = std::filesystem::remove(a.at("path").get<std::string>(), ec);
+        return true;
+    }
     if (op == "wipe_dir")
     {
         // empties a directory (the user deletes a library in order to start again in the same place)
